@@ -33,7 +33,70 @@ def make_spec(rng, **kw):
     }
     g = spec["min_gap"]
     spec["len_range"] = kw.get("len_range", rng.choice([[2 * g, 8 * g], [4 * g, 12 * g], [3 * g, 5 * g]]))
+    spec["family"] = kw.get("family", ("trio" if rng.random() < 0.75 else "quartet") if trio
+                            else ("single" if rng.random() < 0.7 else "unrelated"))
+    spec["var"] = draw_variation(rng, spec, kw.get("var", {}))
     return spec
+
+
+NAME_POOL = ["a", "A10", "A2", "sample", "sample_1", "sample_10", "Zoe", "NA12878", "NA12878-2", "child", "mother", "father",
+             "x.1", "S1", "S2", "s1", "0", "17", "proband", "HG002", "HG003", "HG004", "B-b", "B_b", "zz", "Aa", "aA"]
+
+
+def draw_variation(rng, spec, fixed=None):
+    """Dimensions every CLI stream draws freely: sample names (random, sorting against their role, role names swapped,
+    shared prefixes), VCF column order, read groups per sample (ids unrelated to / colliding with sample names), number
+    of BAM files, an extra unrelated sample next to a pedigree family, and options that do not change what the property
+    demands (--merge-reads, --only-snvs, --no-reference, --sample, --chromosome, --ignore-read-groups, an input VCF that
+    already carries phasing, omitting --internal-downsampling)."""
+    fixed = fixed or {}
+    roles = list(base_roles(spec))
+    ped = spec["trio"]
+    if ped and rng.random() < 0.3:
+        roles.append("extra1")
+    names = rng.sample(NAME_POOL, len(roles)) if rng.random() < 0.7 else list(roles)
+    order = list(range(len(roles)))
+    if rng.random() < 0.6:
+        rng.shuffle(order)
+    single_vcf_sample = len(roles) == 1
+    var = {
+        "roles": roles,
+        "names": names,
+        "column_order": order,
+        "rg_per_sample": [rng.choice([1, 1, 2, 3]) for _ in roles],
+        "rg_style": rng.choice(["sample", "opaque", "opaque", "collide"]),
+        "nbam": rng.choice([1, 1, 2]),
+        "merge_reads": rng.random() < 0.12,
+        "only_snvs": rng.random() < 0.1,
+        "no_reference": rng.random() < 0.12,
+        "sample_subset": (not ped and len(roles) > 1 and rng.random() < 0.35),
+        "chrom_subset": spec["nchrom"] > 1 and rng.random() < 0.25,
+        "ignore_rg": single_vcf_sample and not ped and rng.random() < 0.15,
+        "prephased": rng.random() < 0.15,
+        "default_k": False,
+        "include_homozygous": False,
+    }
+    var.update(fixed)
+    return var
+
+
+def base_roles(spec):
+    fam = spec.get("family")
+    if fam == "unrelated":
+        return ["S1", "S2"]
+    if fam == "quartet":
+        return QUARTET
+    if fam == "single":
+        return ["S1"]
+    return TRIO if spec["trio"] else ["S1"]
+
+
+def role_names(spec):
+    """{role: sample name}"""
+    var = spec.get("var")
+    if not var:
+        return {r: r for r in base_roles(spec)}
+    return dict(zip(var["roles"], var["names"]))
 
 
 QUARTET = ["father", "mother", "child", "child2"]
@@ -45,8 +108,7 @@ def make_stacked_spec(rng, k, counts, family="trio", many=0, nstack=None):
     many: members whose entry in counts is None get `many` ordinary reads spread over the chromosome instead."""
     spec = make_spec(rng, trio=(family != "single"), k=k, nvars=rng.randint(5, 8), depth_reads=many, paired_fraction=0.0,
                      het_fraction=1.0, tag="PS", genetic=rng.random() < 0.5, phased_input=False, nchrom=1,
-                     low_cov_gaps=False, min_gap=25, len_range=[60, 200])
-    spec["family"] = family
+                     low_cov_gaps=False, min_gap=25, len_range=[60, 200], family=family)
     spec["kinds"] = ["snv"]
     spec["stacked"] = {"counts": list(counts), "nstack": nstack or rng.choice([2, 3])}
     return spec
@@ -80,8 +142,7 @@ def make_junction_spec(rng, k, junctions, family="single", tag="PS", dup=0):
     bs_total = sum((2 * max(j["layers"], 1) + 1) * j["bs"] for j in junctions)
     spec = make_spec(rng, trio=False, k=k, nvars=bs_total, depth_reads=0, paired_fraction=0.0, het_fraction=1.0, tag=tag,
                      genetic=True, phased_input=False, nchrom=rng.choice([1, 2]), low_cov_gaps=False, min_gap=25,
-                     len_range=[60, 200])
-    spec["family"] = family
+                     len_range=[60, 200], family=family)
     spec["kinds"] = ["snv"]
     spec["junctions"] = junctions
     spec["dup"] = dup
@@ -154,35 +215,109 @@ def junction_reads(rng, sc, sample, chrom, junctions, dup):
 
 
 def family_samples(spec):
-    fam = spec.get("family")
-    if fam == "unrelated":
-        return ["S1", "S2"]
-    if fam == "quartet":
-        return QUARTET
-    if fam == "single":
-        return ["S1"]
-    return TRIO if spec["trio"] else ["S1"]
+    """sample names of the (first) family, in role order (father, mother, child[, child2] / S1[, S2])"""
+    m = role_names(spec)
+    return [m[r] for r in base_roles(spec)]
+
+
+def all_samples(spec):
+    m = role_names(spec)
+    var = spec.get("var")
+    return [m[r] for r in (var["roles"] if var else base_roles(spec))]
+
+
+def write_bams(sc, reads, wd, spec, rng):
+    """BAM writer with several read groups per sample (ids need not be the sample name) and optionally two files."""
+    import pysam
+    var = spec.get("var") or {}
+    samples = all_samples(spec)
+    nrg = var.get("rg_per_sample") or [1] * len(samples)
+    style = var.get("rg_style", "sample")
+    rgs = {}
+    k = 0
+    for i, smp in enumerate(samples):
+        ids = []
+        for j in range(nrg[i]):
+            if style == "sample" and j == 0:
+                ids.append(smp)
+            elif style == "collide" and j == 0 and len(samples) > 1:
+                ids.append(samples[(i + 1) % len(samples)] + ".rg")      # looks like another sample
+            else:
+                ids.append(f"rg{k}")
+            k += 1
+        rgs[smp] = ids
+    header = {"HD": {"VN": "1.6", "SO": "coordinate"},
+              "SQ": [{"SN": c, "LN": len(sc.ref[c])} for c in sc.chroms],
+              "RG": [{"ID": i, "SM": smp} for smp in samples for i in rgs[smp]]}
+    opmap = {"M": 0, "I": 1, "D": 2}
+    tid = {c: i for i, c in enumerate(sc.chroms)}
+    nbam = var.get("nbam", 1)
+    names = sorted({r["name"] for r in reads})
+    file_of = {n: rng.randrange(nbam) for n in names}
+    rg_of = {n: rng.randrange(8) for n in names}
+    paths = []
+    for b in range(nbam):
+        path = os.path.join(wd, f"reads{b}.bam")
+        rs = sorted((r for r in reads if file_of[r["name"]] == b), key=lambda r: (tid[r["chrom"]], r["start"]))
+        with pysam.AlignmentFile(path, "wb", header=header) as out:
+            for r in rs:
+                a = pysam.AlignedSegment(out.header)
+                a.query_name = r["name"]
+                a.query_sequence = r["seq"]
+                a.flag = r.get("flag", 0)
+                a.reference_id = tid[r["chrom"]]
+                a.reference_start = r["start"]
+                a.mapping_quality = 60
+                a.cigartuples = [(opmap[o], n) for o, n in r["cigar"]]
+                a.query_qualities = pysam.qualitystring_to_array(chr(33 + r.get("qual", 30)) * len(r["seq"]))
+                if "mate_start" in r:
+                    a.next_reference_id = tid[r["chrom"]]
+                    a.next_reference_start = r["mate_start"]
+                ids = rgs[r["sample"]]
+                a.set_tags([("RG", ids[rg_of[r["name"]] % len(ids)])])
+                out.write(a)
+        pysam.index(path)
+        paths.append(path)
+    return paths
 
 
 def build_inputs(spec, wd):
     rng = random.Random(spec["seed"])
-    samples = family_samples(spec)
-    sc = synth.make_scenario(rng, nchrom=spec["nchrom"], nsamples=len(samples), nvars=spec["nvars"],
-                             sample_names=samples, het_fraction=spec["het_fraction"], min_gap=spec["min_gap"],
+    var = spec.get("var") or {}
+    roles = list(var.get("roles") or base_roles(spec))
+    sc = synth.make_scenario(rng, nchrom=spec["nchrom"], nsamples=len(roles), nvars=spec["nvars"],
+                             sample_names=roles, het_fraction=spec["het_fraction"], min_gap=spec["min_gap"],
                              kinds=tuple(spec.get("kinds") or ("snv", "snv", "ins", "del", "mnp")))
     if spec["trio"]:
         for c in sc.chroms:
             child, _ = synth.inherit(rng, sc.haps["father"][c], sc.haps["mother"][c], recomb_prob=0.0)
             sc.haps["child"][c] = child
-            if "child2" in samples:
+            if "child2" in roles:
                 child2, _ = synth.inherit(rng, sc.haps["father"][c], sc.haps["mother"][c], recomb_prob=0.0)
                 sc.haps["child2"][c] = child2
+    # rename the samples (roles -> names) and permute the VCF columns
+    m = role_names(spec)
+    sc.haps = {m[r]: h for r, h in sc.haps.items()}
+    samples = [m[r] for r in roles]
+    order = var.get("column_order") or list(range(len(roles)))
+    sc.samples = [samples[i] for i in order]
     ref = synth.write_fasta(sc, os.path.join(wd, "ref.fa"))
-    vcf = synth.write_vcf(sc, os.path.join(wd, "in.vcf"))
+    prephased = None
+    if var.get("prephased"):
+        # the input already carries (stale) phasing: one block per chromosome named after its first variant, for one sample
+        s0 = samples[0]
+        prephased = {s0: {c: {i: sc.variants[c][0].pos + 1 for i in range(len(sc.variants[c]))
+                              if sc.genotype(s0, c, i) == (0, 1)} for c in sc.chroms}}
+    vcf = synth.write_vcf(sc, os.path.join(wd, "in.vcf"), phased=prephased)
     reads = []
     stacked = spec.get("stacked")
     for si, s in enumerate(samples):
         for c in sc.chroms:
+            if si >= len(base_roles(spec)):
+                # an extra unrelated sample next to the family: ordinary reads
+                reads += synth.simulate_reads(rng, sc, s, c, max(spec["depth_reads"], 30), len_range=tuple(spec["len_range"]),
+                                              paired_fraction=spec["paired_fraction"])
+                continue
             if spec.get("junctions"):
                 rs, _ = junction_reads(rng, sc, s, c, spec["junctions"], spec.get("dup", 0))
                 reads += rs
@@ -202,7 +337,7 @@ def build_inputs(spec, wd):
                     w = rng.randint(0, L - 1)
                     rs = [r for r in rs if not (r["start"] <= w <= r["start"] + len(r["seq"]) + 10)]
             reads += rs
-    bam = synth.write_bam(sc, reads, os.path.join(wd, "reads.bam"))
+    bam = write_bams(sc, reads, wd, spec, rng)
     extra_inputs = []
     if spec["phased_input"]:
         # a phased VCF (true haplotypes, two blocks per chromosome) for the first sample as additional phase input
@@ -219,9 +354,9 @@ def build_inputs(spec, wd):
         extra_inputs.append(synth.write_vcf(sc, os.path.join(wd, "phased.vcf"), phased=phased))
     ped = None
     if spec["trio"]:
-        trios = [("child", "father", "mother")]
-        if "child2" in samples:
-            trios.append(("child2", "father", "mother"))
+        trios = [(m["child"], m["father"], m["mother"])]
+        if "child2" in roles:
+            trios.append((m["child2"], m["father"], m["mother"]))
         ped = synth.write_ped(os.path.join(wd, "trio.ped"), trios)
     return sc, ref, vcf, bam, extra_inputs, ped
 
